@@ -229,7 +229,7 @@ REQUEST = ('obj', 'kmip.core.messages.messages.RequestMessage',
            {'request_header': HEADER, 'batch_items': ('slist', BATCH_ITEM)})
 
 c = contract(E + "_verify_credential").props('C11', 'C17')
-c.args(self=ENGINE, request_credential='opaque', connection_credential='opaque')
+c.args(self=ENGINE, request_credential=('oneof', 'opaque', 'none'), connection_credential=('oneof', 'opaque', 'none'))
 c.ensures("self._client_identity is connection_credential", name="identity-is-the-sessions")
 c.modifies("self._client_identity")
 
